@@ -619,6 +619,12 @@ type Interp struct {
 	mods    map[string]*Module
 	files   map[string]*Program
 	frames  [][]scope // call stack; each frame is a stack of block scopes
+	// LazyRead is set when a statement reads a scalar variable and, later in the same statement, calls a function that
+	// assigns that variable (Go uses the value read first; the back-ends copy variable references into the emitted
+	// statement, so the script sees the new value - a recorded defect class of its own).
+	LazyRead bool
+	curReads map[*RV]bool   // scalar variables read so far by the statement being evaluated
+	pending  []map[*RV]bool // per function call in progress: what its calling statement had read before the call
 	ctl     refCtl
 	rets    []RV
 	steps   int
@@ -782,8 +788,19 @@ func (in *Interp) concIdx(t *sym.Term, lo, hi int, what string) int {
 	return 0
 }
 
+func (in *Interp) noteWrite(p *RV) {
+	for _, set := range in.pending {
+		if set[p] {
+			in.LazyRead = true
+		}
+	}
+}
+
 func (in *Interp) stmt(s Stmt) {
 	in.tick()
+	savedReads := in.curReads
+	in.curReads = map[*RV]bool{}
+	defer func() { in.curReads = savedReads }()
 	B := in.C.B
 	switch x := s.(type) {
 	case Comment, RawStmt:
@@ -801,13 +818,18 @@ func (in *Interp) stmt(s Stmt) {
 	case Assign:
 		vals := in.evalList(x.Vals, len(x.Names))
 		for i, n := range x.Names {
-			*in.find(n) = vals[i]
+			p := in.find(n)
+			in.noteWrite(p)
+			*p = vals[i]
 		}
 	case OpAssign:
 		p := in.find(x.Name)
-		*p = in.binop(x.Op, *p, in.eval(x.Val))
+		v := in.binop(x.Op, *p, in.eval(x.Val))
+		in.noteWrite(p)
+		*p = v
 	case IncDec:
 		p := in.find(x.Name)
+		in.noteWrite(p)
 		op := sym.OpAdd
 		if !x.Inc {
 			op = sym.OpSub
@@ -1039,6 +1061,9 @@ func (in *Interp) enter() {
 }
 
 func (in *Interp) leave() {
+	if len(in.frames) == 0 || len(in.frames[len(in.frames)-1]) == 0 {
+		return // unwinding after an Excluded / RefUnsupported outcome: the frame is gone already
+	}
 	fr := in.frames[len(in.frames)-1]
 	fr = fr[:len(fr)-1]
 	if len(fr) == 0 && len(in.frames) == 1 && in.topPseudo {
@@ -1161,7 +1186,14 @@ func (in *Interp) eval(e Expr) RV {
 	case StrLit:
 		return RStr{x.Val}
 	case Var:
-		return *in.find(x.Name)
+		p := in.find(x.Name)
+		switch (*p).(type) {
+		case RInt, RBool, RStr:
+			if in.curReads != nil {
+				in.curReads[p] = true
+			}
+		}
+		return *p
 	case Paren:
 		return in.eval(x.X)
 	case Bin:
@@ -1352,7 +1384,13 @@ func (in *Interp) eval(e Expr) RV {
 		for i, p := range f.Params {
 			in.define(p.Name, args[i])
 		}
+		snapshot := map[*RV]bool{}
+		for p := range in.curReads {
+			snapshot[p] = true
+		}
+		in.pending = append(in.pending, snapshot)
 		in.block(f.Body, false)
+		in.pending = in.pending[:len(in.pending)-1]
 		in.frames = in.frames[:len(in.frames)-1]
 		in.topPseudo = saved
 		in.cur = savedMod
